@@ -309,9 +309,18 @@ package jsonschema
 //@   ensures (s == nil) == (result == nil)
 //@   ensures result != nil ==> fresh(result)
 
+//@ contract f64Ptr(f)
+//@   pure
+//@   ensures[C04,C09] val: result != nil && fresh(result) && *result == f
+
+//@ contract Ptr[int](x)
+//@   pure
+//@   ensures[C04,C09] val: result != nil && fresh(result) && *result == x
+
 //@ contract falseSchema()
 //@   pure
 //@   ensures result != nil && fresh(result)
+//@   ensures[C09] notset: result.Not != nil && fresh(result.Not)
 
 //@ contract (*Schema).basicChecks(s)
 //@   pure
@@ -325,10 +334,39 @@ package jsonschema
 // infer.go
 // ---------------------------------------------------------------------------
 
+// The translation table of forType (properties C04/C09), per kind of the type that remains after
+// stripping pointers (tbase); "nullable" is "the argument was a pointer type".
+//@ pred typeIs(s *Schema, n string, nullable bool) = (nullable ==> s.Type == "" && len(s.Types) == 2 && s.Types[0] == "null" && s.Types[1] == n) && (!nullable ==> s.Type == n && isnil(s.Types))
+//@ pred noBounds(s *Schema) = s.Minimum == nil && s.Maximum == nil && s.ExclusiveMinimum == nil && s.ExclusiveMaximum == nil
+//@ pred bounds(s *Schema, lo float64, hi float64) = s.Minimum != nil && *s.Minimum == lo && s.Maximum != nil && *s.Maximum == hi && s.ExclusiveMinimum == nil && s.ExclusiveMaximum == nil
+//@ pred lowerOnly(s *Schema) = s.Minimum != nil && *s.Minimum == 0.0 && s.Maximum == nil && s.ExclusiveMinimum == nil && s.ExclusiveMaximum == nil
+//@ pred closedObject(s *Schema) = s.AdditionalProperties != nil && s.AdditionalProperties.Not != nil
+
 //@ contract forType(t, seen, ignore, schemas)
 //@   requires new(seen) && schemas != nil
 //@   modifies seen.entries
 //@   isolated Schema
+//@   let t0 = t
+//@   let plain = schemas[tbase(t)] == nil
+//@   ensures[C04,C09] tbool: result0 != nil && plain && tkind(tbase(t0)) == 1 ==> typeIs(result0, "boolean", tkind(t0) == 22)
+//@   ensures[C04,C09] tint: result0 != nil && plain && (tkind(tbase(t0)) == 2 || tkind(tbase(t0)) == 6) ==> typeIs(result0, "integer", tkind(t0) == 22) && noBounds(result0)
+//@   ensures[C04,C09] tuint: result0 != nil && plain && (tkind(tbase(t0)) == 7 || tkind(tbase(t0)) == 11 || tkind(tbase(t0)) == 12) ==> typeIs(result0, "integer", tkind(t0) == 22) && lowerOnly(result0)
+//@   ensures[C04,C09] tint8: result0 != nil && plain && tkind(tbase(t0)) == 3 ==> typeIs(result0, "integer", tkind(t0) == 22) && bounds(result0, 0.0 - 128.0, 127.0)
+//@   ensures[C04,C09] tint16: result0 != nil && plain && tkind(tbase(t0)) == 4 ==> typeIs(result0, "integer", tkind(t0) == 22) && bounds(result0, 0.0 - 32768.0, 32767.0)
+//@   ensures[C04,C09] tint32: result0 != nil && plain && tkind(tbase(t0)) == 5 ==> typeIs(result0, "integer", tkind(t0) == 22) && bounds(result0, 0.0 - 2147483648.0, 2147483647.0)
+//@   ensures[C04,C09] tuint8: result0 != nil && plain && tkind(tbase(t0)) == 8 ==> typeIs(result0, "integer", tkind(t0) == 22) && bounds(result0, 0.0, 255.0)
+//@   ensures[C04,C09] tuint16: result0 != nil && plain && tkind(tbase(t0)) == 9 ==> typeIs(result0, "integer", tkind(t0) == 22) && bounds(result0, 0.0, 65535.0)
+//@   ensures[C04,C09] tuint32: result0 != nil && plain && tkind(tbase(t0)) == 10 ==> typeIs(result0, "integer", tkind(t0) == 22) && bounds(result0, 0.0, 4294967295.0)
+//@   ensures[C04,C09] tfloat: result0 != nil && plain && (tkind(tbase(t0)) == 13 || tkind(tbase(t0)) == 14) ==> typeIs(result0, "number", tkind(t0) == 22) && noBounds(result0)
+//@   ensures[C04,C09] tstring: result0 != nil && plain && tkind(tbase(t0)) == 24 ==> typeIs(result0, "string", tkind(t0) == 22)
+//@   ensures[C04,C09] tany: result0 != nil && plain && tkind(tbase(t0)) == 20 ==> result0.Type == "" && isnil(result0.Types) && noBounds(result0)
+//@   ensures[C04,C09] tmap: result0 != nil && plain && tkind(tbase(t0)) == 21 ==> typeIs(result0, "object", tkind(t0) == 22) && result0.AdditionalProperties != nil
+//@   ensures[C04,C09] tstruct: result0 != nil && plain && tkind(tbase(t0)) == 25 ==> typeIs(result0, "object", tkind(t0) == 22) && closedObject(result0)
+//@   ensures[C04,C09] tarray: result0 != nil && plain && tkind(tbase(t0)) == 17 ==> typeIs(result0, "array", tkind(t0) == 22) && result0.Items != nil && result0.MinItems != nil && *result0.MinItems == tlen(tbase(t0)) && result0.MaxItems != nil && *result0.MaxItems == tlen(tbase(t0))
+//@   ensures[C04,C09] tslice: result0 != nil && plain && tkind(tbase(t0)) == 23 && envOf("JSONSCHEMAGODEBUG") != "typeschemasnull=1" ==> result0.Type == "" && len(result0.Types) == 2 && result0.Types[0] == "null" && result0.Types[1] == "array" && result0.Items != nil && result0.MinItems == nil && result0.MaxItems == nil
+//@   loopinv obj: tkind(t) == 25 ==> s.Type == "object" && isnil(s.Types) && closedObject(s)
+//@   loop "for t.Kind() == reflect.Pointer"
+//@     invariant base: tbase(t) == tbase(t0) && (allowNull ==> tkind(t0) == 22) && (!allowNull ==> t == t0)
 //@   ensures[C16,C10] fresh: result0 != nil ==> fresh(result0)
 //@   ensures[C16,C10] total: !ignore && result1 == nil ==> result0 != nil
 //@   loopinv n1: new(s) && fresh(s)
